@@ -166,6 +166,30 @@ func run(r *ev.Run, l layout) {
 		}
 	}
 	outcomes["fields/boundary"] = true
+	// calendar sweep: EVERY calendar day (Asia/Shanghai) that the timestamp width reaches from this
+	// epoch - its first millisecond, the millisecond before it, and a day-dependent time of day
+	e0 := time.UnixMilli(l.epoch).In(shanghai)
+	firstMidnight := time.Date(e0.Year(), e0.Month(), e0.Day(), 0, 0, 0, 0, shanghai).UnixMilli() - l.epoch
+	days := int64(0)
+	for d := int64(0); ; d++ {
+		base := firstMidnight + d*86400000
+		if base > l.maxT() {
+			break
+		}
+		days++
+		mid := ((d%24)*3600+(d%60)*60+(d*7)%60)*1000 + d%1000
+		for _, t := range []int64{base - 1, base, base + mid} {
+			if t < 0 || t > l.maxT() {
+				continue
+			}
+			checkID(l.compose(t, 0, 0), t, 0, 0, true)
+			checkID(l.compose(t, nodeMax, 4095), t, nodeMax, 4095, true)
+			if nviol > 10 {
+				return
+			}
+		}
+	}
+	outcomes[fmt.Sprintf("calendar/days=%d", days)] = true
 	// all low bits for a few timestamps
 	full := []int64{ts[len(ts)/2]}
 	if !r.Quick() {
@@ -273,12 +297,12 @@ func run(r *ev.Run, l layout) {
 	outcomes["ranges"] = true
 	r.Sample(map[string]interface{}{"layout": l.String(), "id": fam[len(fam)/2].id, "cn": snowflake.CnStyle(fam[len(fam)/2].id)})
 	r.AddPart(ev.Part{Name: name, Evaluations: evals, States: int64(len(fam)), Transitions: evals, Outcomes: int64(len(outcomes)), Exhaustive: !r.Expired(), Blocked: true,
-		Bound: fmt.Sprintf("%d boundary timestamps x 16 (node,step) corners; all 2^%d low-bit values for %d timestamps; %d instants pairwise for ranges", len(ts), l.shift(), len(full), len(instants)), WallS: time.Since(t0).Seconds()})
+		Bound: fmt.Sprintf("%d boundary timestamps x 16 (node,step) corners; every one of the %d calendar days in range x 3 instants x 2 corners; all 2^%d low-bit values for %d timestamps; %d instants pairwise for ranges", len(ts), days, l.shift(), len(full), len(instants)), WallS: time.Since(t0).Seconds()})
 }
 
 func main() {
 	r := ev.Start("C07")
-	r.Rule("per layout (node bits 8/9/10 x node-at-lowest x three epochs, one process each): ids built from a boundary timestamp family (0,1,999..,2^k±1,max, calendar boundaries ±1ms 2000-2300, every millisecond of windows at 8 anchor dates) x (node,step) corners, and ALL low-bit values for 1 (quick) / 3 (thorough) timestamps: IDFields/recombine, IDParse/IDParseEx, CnStyle/FromChStyle, order of adjacent ids; TimeBetweenID/TimeIDRange for all ordered pairs of boundary instants with ids probed around both endpoints")
+	r.Rule("per layout (node bits 8/9/10 x node-at-lowest x three epochs, one process each): ids built from a boundary timestamp family (0,1,999..,2^k±1,max, calendar boundaries ±1ms 2000-2300, every millisecond of windows at 8 anchor dates) x (node,step) corners, EVERY calendar day the timestamp width reaches (first ms, the ms before, a day-dependent time of day), and ALL low-bit values for 1 (quick) / 3 (thorough) timestamps: IDFields/recombine, IDParse/IDParseEx, CnStyle/FromChStyle, order of adjacent ids; TimeBetweenID/TimeIDRange for all ordered pairs of boundary instants with ids probed around both endpoints")
 	r.Assume("Asia/Shanghai is UTC+8 without DST from 2000 on", "instants at or after the epoch whose offset fits the timestamp width")
 	ls := layouts()
 	if r.Shard != "" {
